@@ -4,6 +4,7 @@ CONSTANTS
   LayoutIds = {1, 2, 3, 4}
   Eols = {"lf", "crlf"}
   Priors = {"none", "expired"}
+  Extras = TRUE
   Rules = {1, 2, 3, 4, 5, 6, 7, 8, 9, 10, 11}
   Scopes = {"rule", "file"}
   OnlyBasePairs = FALSE
